@@ -3,6 +3,7 @@ package mc
 import (
 	"fmt"
 	"reflect"
+	"runtime"
 	"sync"
 )
 
@@ -22,6 +23,10 @@ func Make[T any](n int) chan T {
 
 // Send is `c <- v`.
 func Send[T any](c chan<- T, v T) {
+	if cur == nil {
+		c <- v
+		return
+	}
 	s := cur
 	s.park(&op{kind: opSend, ch: s.chanOf(c), val: v})
 }
@@ -36,6 +41,10 @@ func conv[T any](v interface{}) T {
 
 // Recv is `v, ok := <-c`.
 func Recv[T any](c <-chan T) (T, bool) {
+	if cur == nil {
+		v, ok := <-c
+		return v, ok
+	}
 	s := cur
 	o := s.park(&op{kind: opRecv, ch: s.chanOf(c)})
 	return conv[T](o.rval), o.rok
@@ -49,25 +58,45 @@ func Recv1[T any](c <-chan T) T {
 
 // Close is close(c).
 func Close[T any](c chan<- T) {
+	if cur == nil {
+		close(c)
+		return
+	}
 	s := cur
 	s.park(&op{kind: opClose, ch: s.chanOf(c)})
 }
 
 // Go is `go f()`.
 func Go(f func()) {
+	if cur == nil {
+		go f()
+		return
+	}
 	s := cur
 	s.park(&op{kind: opGo, fn: f})
 }
 
 // Yield is a pure scheduling point.
 func Yield() {
+	if cur == nil {
+		runtime.Gosched()
+		return
+	}
 	s := cur
 	s.park(&op{kind: opYield})
 }
 
 // RecvCase / SendCase build select cases.
-func RecvCase[T any](c <-chan T) SelCase { return SelCase{ch: cur.chanOf(c)} }
+func RecvCase[T any](c <-chan T) SelCase {
+	if cur == nil {
+		return SelCase{native: reflect.SelectCase{Dir: reflect.SelectRecv, Chan: reflect.ValueOf(c)}}
+	}
+	return SelCase{ch: cur.chanOf(c)}
+}
 func SendCase[T any](c chan<- T, v T) SelCase {
+	if cur == nil {
+		return SelCase{send: true, native: reflect.SelectCase{Dir: reflect.SelectSend, Chan: reflect.ValueOf(c), Send: reflect.ValueOf(v)}}
+	}
 	return SelCase{send: true, ch: cur.chanOf(c), val: v}
 }
 
@@ -80,6 +109,21 @@ type Sel struct {
 
 // Select performs a select over the cases.
 func Select(hasDefault bool, cases ...SelCase) *Sel {
+	if cur == nil {
+		var nc []reflect.SelectCase
+		for _, c := range cases {
+			nc = append(nc, c.native)
+		}
+		if hasDefault {
+			nc = append(nc, reflect.SelectCase{Dir: reflect.SelectDefault})
+		}
+		i, v, ok := reflect.Select(nc)
+		sel := &Sel{Index: i, ok: ok}
+		if v.IsValid() {
+			sel.val = v.Interface()
+		}
+		return sel
+	}
 	s := cur
 	o := s.park(&op{kind: opSelect, cases: cases, hasDefault: hasDefault})
 	idx := o.rindex
@@ -105,17 +149,28 @@ func (s *Sched) wgOf(w *sync.WaitGroup) *wgState {
 
 // WGAdd is wg.Add(n) (Done is Add(-1)); WGWait is wg.Wait().
 func WGAdd(w *sync.WaitGroup, n int) {
+	if cur == nil {
+		w.Add(n)
+		return
+	}
 	s := cur
 	s.park(&op{kind: opWGAdd, wg: s.wgOf(w), n: n})
 }
 
 func WGWait(w *sync.WaitGroup) {
+	if cur == nil {
+		w.Wait()
+		return
+	}
 	s := cur
 	s.park(&op{kind: opWGWait, wg: s.wgOf(w)})
 }
 
 // Len is len(c) for a channel.
 func Len[T any](c <-chan T) int {
+	if cur == nil {
+		return len(c)
+	}
 	if st := cur.chanOf(c); st != nil {
 		return len(st.buf)
 	}
@@ -126,6 +181,9 @@ func Len[T any](c <-chan T) int {
 
 // CloseCount says how often close was called on c.
 func CloseCount[T any](c <-chan T) int {
+	if cur == nil {
+		return 1 // not observable on the native runtime (a second close panics)
+	}
 	if st := cur.chanOf(c); st != nil {
 		return st.closeCount
 	}
@@ -134,8 +192,37 @@ func CloseCount[T any](c <-chan T) int {
 
 // IsClosed reports whether c is closed.
 func IsClosed[T any](c <-chan T) bool {
+	if cur == nil {
+		return false
+	}
 	if st := cur.chanOf(c); st != nil {
 		return st.closed
 	}
 	return false
+}
+
+// Atomic performs a sync/atomic operation as one scheduling step; the value it
+// returns becomes part of the goroutine's observation history.
+func Atomic[T any](f func() T) T {
+	if cur == nil {
+		return f()
+	}
+	s := cur
+	o := s.park(&op{kind: opYield, fn: nil})
+	_ = o
+	v := f()
+	s.note(s.cur, "atomic", fmt.Sprintf("%v", v))
+	return v
+}
+
+// Atomic0 is Atomic for operations without a result.
+func Atomic0(f func()) {
+	if cur == nil {
+		f()
+		return
+	}
+	s := cur
+	s.park(&op{kind: opYield})
+	f()
+	s.note(s.cur, "atomic0")
 }
